@@ -123,13 +123,33 @@ Qed.
 Lemma stmt_field_wrapper : forall G k f, stmt_field G (wrapper G k) f = true.
 Proof. intros; unfold stmt_field; rewrite is_wrapper_wrapper; reflexivity. Qed.
 
-Lemma known_field_wrapper : forall G k f, known_field G (wrapper G k) f = true.
-Proof. intros; unfold known_field; rewrite is_wrapper_wrapper; reflexivity. Qed.
+Lemma known_field_wrapper : forall G k f, known_field G (wrapper G k) f = negb (String.eqb f opaque_field).
+Proof. intros; unfold known_field; rewrite is_wrapper_wrapper; simpl; apply andb_true_r. Qed.
+
+Lemma known_field_not_opaque : forall G k f, known_field G k f = true -> String.eqb f opaque_field = false.
+Proof. intros G k f H. unfold known_field in H. apply andb_true_iff in H. destruct H as [H _].
+  apply negb_true_iff in H; exact H. Qed.
+
+(* ---- nothing hidden: relabel is the identity -------------------------- *)
+Lemma hides_nothing_lookup : forall P k, hides_nothing P = true -> a_hide (lookup P k) = [].
+Proof.
+  intros P k H. destruct (lookup_cases P k) as [Hd | Hi].
+  - rewrite Hd; reflexivity.
+  - pose proof (forallb_In _ _ _ _ H Hi) as H1; simpl in H1.
+    destruct (a_hide (lookup P k)); [reflexivity | discriminate].
+Qed.
+
+Lemma relabel_id : forall P k f, hides_nothing P = true -> relabel (lookup P k) f = f.
+Proof. intros P k f H. unfold relabel. rewrite (hides_nothing_lookup P k H). reflexivity. Qed.
+
+Lemma preserves_hides : forall G P, preserves_sorts G P = true -> hides_nothing P = true.
+Proof. intros G P H. unfold preserves_sorts in H. apply andb_true_iff in H. tauto. Qed.
 
 Lemma preserves_entry : forall G P k, preserves_sorts G P = true ->
   isS G k = false -> forallb (fun i => negb (isS G i)) (a_intro (lookup P k)) = true.
 Proof.
-  intros G P k HP Hk. destruct (lookup_cases P k) as [Hd | Hi].
+  intros G P k HP Hk. unfold preserves_sorts in HP. apply andb_true_iff in HP. destruct HP as [_ HP].
+  destruct (lookup_cases P k) as [Hd | Hi].
   - rewrite Hd; reflexivity.
   - pose proof (forallb_In _ _ _ _ HP Hi) as H1; simpl in H1. rewrite Hk in H1; simpl in H1; auto.
 Qed.
@@ -160,6 +180,7 @@ Proof.
   rewrite forallb_app. apply andb_true_iff; split.
   - rewrite forallb_forall. intros fc' Hi'. apply in_map_iff in Hi'.
     destruct Hi' as [[f c] [He Hi]]. rewrite Forall_forall in IH.
+    rewrite (relabel_id P k f (preserves_hides G P HP)) in He.
     pose proof (forallb_In _ _ _ _ Hw Hi) as H1; simpl in H1.
     assert (Hc : (if stmt_field G k f then wf G c else pure G c) = true ->
                  forall c', (c' = c \/ c' = xform G P c) ->
@@ -183,23 +204,35 @@ Proof.
       pose proof (forallb_In _ _ _ _ Hin Hi) as H1; simpl in H1. rewrite H1; reflexivity.
 Qed.
 
-Lemma xform_kf : forall G P t, kf G t = true -> kf G (xform G P t) = true.
+Lemma xform_kf : forall G P, hides_nothing P = true -> forall t, kf G t = true -> kf G (xform G P t) = true.
 Proof.
-  intros G P; induction t as [k cs IH] using tree_ind'; simpl; intros Hw.
+  intros G P HP; induction t as [k cs IH] using tree_ind'; simpl; intros Hw.
   rewrite forallb_app. apply andb_true_iff; split.
   - rewrite forallb_forall. intros fc' Hi'. apply in_map_iff in Hi'.
     destruct Hi' as [[f c] [He Hi]]. rewrite Forall_forall in IH.
+    rewrite (relabel_id P k f HP) in He.
     pose proof (forallb_In _ _ _ _ Hw Hi) as H1; simpl in H1.
     apply andb_true_iff in H1; destruct H1 as [H1 H2].
+    pose proof (known_field_not_opaque _ _ _ H1) as Hno.
     assert (Hc : forall c', (c' = c \/ c' = xform G P c) -> kf G c' = true).
     { intros c' [Hc' | Hc']; subst c'; auto. apply (IH _ Hi); auto. }
     destruct (is_always (lookup P k));
-      destruct (visits (lookup P k) f); subst fc'; try rewrite known_field_wrapper; try rewrite H1; simpl; apply Hc; auto.
+      destruct (visits (lookup P k) f); subst fc'; try rewrite known_field_wrapper; try rewrite Hno;
+      try rewrite H1; simpl; apply Hc; auto.
   - rewrite forallb_forall. intros fc' Hi'. apply in_map_iff in Hi'.
     destruct Hi' as [i [He Hi]]. subst fc'. simpl.
     rewrite andb_true_r.
-    destruct (is_always (lookup P k)); [apply known_field_wrapper|].
+    destruct (is_always (lookup P k)); [rewrite known_field_wrapper; reflexivity|].
     unfold known_field, intro_field. rewrite String.eqb_refl. rewrite orb_true_r. reflexivity.
+Qed.
+
+Lemma pass_ok_hides : forall G W wfk P, pass_ok G W wfk P = true -> hides_nothing P = true.
+Proof.
+  intros G W wfk P H. unfold pass_ok in H. unfold hides_nothing.
+  apply forallb_forall. intros [k a] Hi. pose proof (forallb_In _ _ _ _ H Hi) as H1.
+  unfold entry_ok in H1. simpl.
+  destruct (a_hide a); [reflexivity|].
+  rewrite andb_false_r in H1. simpl in H1. discriminate.
 Qed.
 
 (* ---- one pass --------------------------------------------------------- *)
@@ -242,6 +275,7 @@ Proof.
   assert (HA : forall x, native G x = true -> mem x A = true -> mem x (elims G P) = false ->
                mem x (next_live G P A) = true).
   { intros; apply next_live_keep; auto. }
+  pose proof (pass_ok_hides _ _ _ _ HP) as Hnh.
   induction t as [k cs IH] using tree_ind'; intros Hwf Hkf Hg Hc.
   rewrite Forall_forall in IH.
   simpl in Hkf, Hg, Hc. apply andb_true_iff in Hc; destruct Hc as [Hck Hccs].
@@ -250,19 +284,22 @@ Proof.
   assert (Htrav : forall f c, In (f, c) cs -> visits a f = false -> exempt G k f = false ->
                   no_kinds (elims G P) c = true).
   { intros f c Hi Hv He.
+    pose proof (forallb_In _ _ _ _ Hkf Hi) as Hk1; simpl in Hk1.
+    apply andb_true_iff in Hk1; destruct Hk1 as [Hk1 _].
+    pose proof (known_field_not_opaque _ _ _ Hk1) as Hno.
+    unfold visits in Hv. rewrite Hno in Hv. simpl in Hv.
     pose proof (lookup_cases P k) as Hl; fold a in Hl; destruct Hl as [Hd | Hin].
     - rewrite Hd in Hv. discriminate.
     - pose proof (forallb_In _ _ _ _ HP Hin) as He0. unfold entry_ok in He0.
       apply andb_true_iff in He0; destruct He0 as [He0 _].
       apply andb_true_iff in He0; destruct He0 as [Hnw Ht].
-      unfold visits in Hv. apply orb_false_iff in Hv; destruct Hv as [Hv Hv3].
+      apply andb_true_iff in Hnw; destruct Hnw as [Hnw _].
+      apply orb_false_iff in Hv; destruct Hv as [Hv Hv3].
       apply orb_false_iff in Hv; destruct Hv as [Hv1 Hv2].
       rewrite Hv1 in Ht. simpl in Ht.
       destruct (elims G P) as [|e0 er] eqn:EE; [apply no_kinds_nil|]. rewrite <- EE in *.
       simpl in Ht.
-      pose proof (forallb_In _ _ _ _ Hkf Hi) as Hk1; simpl in Hk1.
-      apply andb_true_iff in Hk1; destruct Hk1 as [Hk1 _].
-      unfold known_field in Hk1. apply negb_true_iff in Hnw. rewrite Hnw, Hv2 in Hk1. simpl in Hk1.
+      unfold known_field in Hk1. apply negb_true_iff in Hnw. rewrite Hnw, Hv2, Hno in Hk1. simpl in Hk1.
       destruct (fields_of (g_fields G) k) as [fs|]; [|discriminate].
       apply mem_In in Hk1. pose proof (forallb_In _ _ _ _ Ht Hk1) as H2; simpl in H2.
       rewrite Hv3 in H2. simpl in H2. unfold skip_ok in H2. rewrite He in H2. simpl in H2.
@@ -311,6 +348,7 @@ Proof.
   - rewrite forallb_app. apply andb_true_iff; split.
     + rewrite forallb_forall. intros fc' Hi'. apply in_map_iff in Hi'.
       destruct Hi' as [[f c] [He Hi]].
+      unfold a in He. rewrite (relabel_id P k f Hnh) in He. fold a in He.
       destruct (is_always a) eqn:Eal.
       * specialize (Hch f c Hi (Hex eq_refl f)).
         destruct (visits a f); subst fc'; rewrite exempt_wrapper; simpl; exact Hch.
@@ -339,7 +377,7 @@ Proof.
     apply (IH (next_live G P A) (wfk && preserves_sorts G P)); auto.
     + intros H. apply andb_true_iff in H; destruct H as [H1 H2].
       apply xform_wf; auto.
-    + apply xform_kf; auto.
+    + apply xform_kf; auto. eapply pass_ok_hides; eauto.
     + eapply xform_clean; eauto.
 Qed.
 
